@@ -32,11 +32,27 @@ pub fn is_closed(a: &str, d: &Dump) -> bool {
     let t = &d.toks[n - 2];
     let raw = &a[t.b as usize..t.e as usize];
     let last_ok = (t.t == T::SEMI && !raw.is_empty())
-        || ((t.t == T::PredictedCommentStat || t.t == T::MacroComment) && raw.ends_with(';'))
+        || (t.t == T::PredictedCommentStat && raw.ends_with(';'))
+        || (t.t == T::MacroComment && macro_comment_terminated(raw))
         || (t.t == T::CStyleComment && raw.ends_with("*/") && raw.len() >= 4);
     let last_def = d.toks[..n - 1].iter().rev().find(|t| t.ch == Ch::DEFAULT);
     let def_ok = last_def.map_or(true, |t| t.t == T::SEMI && !t.empty());
     last_ok && def_ok
+}
+
+/// the first ';' outside '…' / "…" pairs is the last character (a ';' inside an open quote does
+/// not terminate a macro comment, so such a comment is still open at end of input)
+fn macro_comment_terminated(raw: &str) -> bool {
+    let mut q: Option<char> = None;
+    for (bi, c) in raw.char_indices().skip(2) {
+        match (q, c) {
+            (None, ';') => return bi + 1 == raw.len(),
+            (None, '\'') | (None, '"') => q = Some(c),
+            (Some(x), y) if x == y => q = None,
+            _ => {}
+        }
+    }
+    false
 }
 
 const CLOSED: &[&str] = &[
@@ -173,8 +189,8 @@ impl Property for C15 {
     }
     fn cases(&self, tier: Tier) -> u64 {
         match tier {
-            Tier::Quick => 12_000,
-            Tier::Thorough => 300_000,
+            Tier::Quick => 100_000,
+            Tier::Thorough => 2_000_000,
         }
     }
     fn stream_len(&self) -> usize {
@@ -283,8 +299,8 @@ impl Property for C16 {
     }
     fn cases(&self, tier: Tier) -> u64 {
         match tier {
-            Tier::Quick => 10_000,
-            Tier::Thorough => 200_000,
+            Tier::Quick => 100_000,
+            Tier::Thorough => 2_000_000,
         }
     }
     fn generate(&self, s: &mut Src) -> Case {
